@@ -85,10 +85,19 @@ ProbeTick(s) == [cur |-> IF s.index = <<>> THEN -1 ELSE s.index[1].cur,
 ExpectedTicks(pre) == IF pre.exec # <<>> /\ pre.exec[1] = IIns("VERIF.PROBE") THEN <<ProbeTick(pre)>> ELSE <<>>
 TicksOf(e) == IF HasF(e, "ticks") THEN e.ticks ELSE <<>>
 
+\* extended coverage of a step that matched: what GRAPH.PRINT / GRAPH.PRINT*DIFF wrote (PushGraphText)
+GraphTextBad(e, pre) ==
+  /\ pre.exec # <<>> /\ pre.exec[1].k = "ins" /\ pre.exec[1].v \in {"GRAPH.PRINT", "GRAPH.PRINT*DIFF"}
+  /\ ~Crashed(e) /\ Len(e.post.name) = Len(pre.name) + 1
+  /\ IF pre.exec[1].v = "GRAPH.PRINT" THEN pre.graph # <<>> /\ ~TextOK(e.post.name[1], pre.graph[1])
+     ELSE Len(pre.graph) >= 2 /\ ~DiffTextOK(e.post.name[1], pre.graph[2], pre.graph[1])
 JudgeStepT(e, pre) ==
   LET j == JudgeStep(e, pre) IN
   IF j.v = "ok" /\ TicksOf(e) # ExpectedTicks(pre)
   THEN Verdict("mismatch", j.subj, "C06", <<"ticks">>, "probe log differs from the specification")
+  ELSE IF j.v = "ok" /\ GraphTextBad(e, pre)
+  THEN [j EXCEPT !.v = "mismatch", !.owner = "EXT", !.fields = <<"name">>,      \* keeps the frame judgement of j
+                 !.msg = "the text does not list exactly the nodes / edges / changes of the model (lines, counts)"]
   ELSE j
 
 \* copying the program to the CODE stack keeps its order (the top of EXEC becomes the top of CODE)
@@ -208,8 +217,10 @@ JudgeCliLines(e, ch) ==
       libdone == steps >= 1 /\ ch[Len(ch)].done
       bad   == {j \in 1..n : ~BlockOK(bl[j], ch[2 + j].st)}
   IN IF Len(ch) < 3 THEN Blank("ok", "cli")
-     ELSE IF bad # {} THEN Verdict("mismatch", "cli", "C14", <<>>, "block " \o ToString(CHOOSE j \in bad : \A k \in bad : j <= k) \o
-                                   " printed by the front end is not the rendering of the library's state before that step")
+     \* how a stack is rendered is not part of C14 (the comparison with the library's own rendering is made by the
+     \* differential stage): extended coverage
+     ELSE IF bad # {} THEN Verdict("mismatch", "cli", "EXT", <<>>, "block " \o ToString(CHOOSE j \in bad : \A k \in bad : j <= k) \o
+                                   " printed by the front end is not the specified rendering of the library's state before that step")
      ELSE IF libdone /\ ~e.ret.capped /\ ~(e.ret.done /\ e.ret.code = 0 /\ Len(bl) = steps)
      THEN Verdict("mismatch", "cli", "C14", <<>>, "the library finished after " \o ToString(steps) \o " steps; the front end printed " \o
                   ToString(Len(bl)) \o " blocks, exit code " \o ToString(e.ret.code))
